@@ -655,6 +655,22 @@ def rat_pow(x, n):
     x = Sym.lift(x)
     if not x.isreal():
         raise NotImplementedError("rational power of complex")
+    if x.tag is not None and x.tag[0] == "powof" and St.mode == "REAL":
+        # (b^a)^n = b^(a n) for b > 0
+        base, a = x.tag[1], x.tag[2]
+        tot = a * n
+        if tot == 1:
+            return Sym(base)
+        if tot.denominator == 1 and 0 < tot <= 8:
+            return Sym(base)._ipow(int(tot))
+        return rat_pow(Sym(base), tot)
+    out = _rat_pow(x, n)
+    if St.mode == "REAL" and not x.isconc():
+        out.tag = ("powof", x.re, n)
+    return out
+
+
+def _rat_pow(x, n):
     p, q = n.numerator, n.denominator
     if conc(x.re):
         if x.re == 0:
